@@ -419,32 +419,69 @@ def _coupled_stability(ctx):
                 site = (st, node)
     okw, detail = False, "no call"
     if site is not None:
-        st, node = site
-        kw = {k.arg: ast.unparse(k.value) for k in node.keywords}
-        cond = ast.unparse(st.test) if isinstance(st, ast.If) else "unconditional"
-        it = ctx.fresh_interp()
-        if isinstance(st, ast.If):
-            from .. import absint
+        from .. import absint
+        from ..harness import backward_slice
 
-            tv = []
-            for n_p in (0, 1, 3):
-                env = absint.Env(parent=it.module_env(ix.module("fdtdx.fdtd.initialization")), vars={"num_dispersive_poles": n_p})
-                tv.append(bool(it.eval(st.test, env)))
-            cond_ok = tv == [False, True, True] or tv == [True, True, True]
-        else:
-            cond_ok = True
-        okw = cond_ok and kw.get("dt") == "config.time_step_duration" and kw.get("courant_factor") == "config.courant_factor" and "_collect_labeled_materials(objects)" in [ast.unparse(x) for x in node.args] + list(kw.values())
-        detail = dict(condition=cond, kwargs=kw)
+        st, node = site
+        # evaluate the call's arguments — through whatever local names they go — on a mock configuration
+        inputs = {"config", "objects", "volume_shape", "num_dispersive_poles"}
+        used = {n.id for k in node.keywords for n in ast.walk(k.value) if isinstance(n, ast.Name)} | {n.id for a_ in node.args for n in ast.walk(a_) if isinstance(n, ast.Name)}
+        # statements that can define them: the function's top level up to the call, then the enclosing block up to it
+        scope = []
+        for top in fi.node.body:
+            if top is st:
+                break
+            scope.append(top)
+        if isinstance(st, ast.If):
+            for inner in st.body:
+                if node in list(ast.walk(inner)):
+                    break
+                scope.append(inner)
+        stmts, free = backward_slice(fi.node, used, inputs, body=scope)
+        mi_ = ix.module("fdtdx.fdtd.initialization")
+        it = ctx.fresh_interp()
+        comp = {m.id for n in ast.walk(node) if isinstance(n, ast.comprehension) for m in ast.walk(n.target) if isinstance(m, ast.Name)}
+        free = {n for n in free if n not in comp and ix.resolve_name(mi_, n) is None and n not in ("sum", "len", "int", "float", "tuple", "list", "any", "all", "max", "min", "range")}
+        cond = ast.unparse(st.test) if isinstance(st, ast.If) else "unconditional"
+        vals = {}
+        if not free:
+            labelled = Obj(None, {}, "labelled materials")
+            stub_repo_calls(it, {"_collect_labeled_materials": lambda it_, a_, k_: labelled if a_ and a_[0] is objs_mock else "other"})
+            objs_mock = Obj(None, {}, "objects")
+            cfg = Obj(None, dict(time_step_duration=Rat.atom("DTc"), courant_factor=Rat.atom("Sc"), courant_number=Rat.atom("CNc"), time_steps_total=Rat.atom("Tc")), "config")
+            env = absint.Env(parent=it.module_env(mi_), vars={"config": cfg, "objects": objs_mock, "volume_shape": (8, 8, 1), "num_dispersive_poles": 2})
+            try:
+                it.exec_block(stmts, env)
+                vals = {k.arg: it.eval(k.value, env) for k in node.keywords}
+                vals["__args__"] = [it.eval(a_, env) for a_ in node.args]
+            except Raised as r:
+                raise AnalysisError(f"_init_arrays: the screening call's arguments raise: {r}")
+            if isinstance(st, ast.If):
+                tv = []
+                for n_p in (0, 1, 3):
+                    env2 = absint.Env(parent=it.module_env(mi_), vars={"config": cfg, "objects": objs_mock, "volume_shape": (8, 8, 1), "num_dispersive_poles": n_p})
+                    it.exec_block(backward_slice(fi.node, {n.id for n in ast.walk(st.test) if isinstance(n, ast.Name)}, inputs)[0], env2)
+                    tv.append(bool(it.eval(st.test, env2)))
+                cond_ok = tv in ([False, True, True], [True, True, True])
+            else:
+                cond_ok = True
+            mats_arg = vals.get("materials", vals["__args__"][0] if vals.get("__args__") else None)
+            dt_arg = vals.get("dt", vals["__args__"][1] if len(vals.get("__args__", [])) > 1 else None)
+            s_arg = vals.get("courant_factor", vals["__args__"][2] if len(vals.get("__args__", [])) > 2 else None)
+            okw = cond_ok and mats_arg is labelled and dt_arg is not None and to_rat(dt_arg).equals(Rat.atom("DTc")) and s_arg is not None and to_rat(s_arg).equals(Rat.atom("Sc"))
+        detail = dict(condition=cond, free_names=sorted(free), arguments={k: (to_rat(v).fmt() if isinstance(v, (Rat, int)) else type(v).__name__) for k, v in vals.items() if k != "__args__"})
     ctx.ob("R36.6", "_init_arrays:coupled-stability screening", okw, "placement runs the screening on every labelled material whenever the simulation has dispersive poles, with the simulation's own time step and Courant factor — " + ("" if okw else witness), detail, "validate_dispersive_coupled_stability(_collect_labeled_materials(objects), dt=config.time_step_duration, courant_factor=config.courant_factor, ...)")
     # the active-axes argument counts the axes with more than one cell
     if site is not None:
         naa = {k.arg: k.value for k in site[1].keywords}.get("num_active_axes")
         if naa is not None:
             from .. import absint
+            from ..harness import backward_slice
 
             vals = {}
             for shp in ((8, 8, 8), (8, 8, 1), (1, 5, 1), (1, 1, 1), (2, 1, 2)):
                 env = absint.Env(parent=it.module_env(ix.module("fdtdx.fdtd.initialization")), vars={"volume_shape": shp})
+                it.exec_block(backward_slice(fi.node, {n.id for n in ast.walk(naa) if isinstance(n, ast.Name)}, {"volume_shape", "config", "objects"})[0], env)
                 vals[shp] = it.eval(naa, env)
             ctx.ob("R36.6", "_init_arrays:active-axes", all(int(v) == sum(1 for n in shp if n > 1) for shp, v in vals.items()), "d passed to the screening is the number of grid axes with more than one cell (a shortest wavelength exists only along those)", vals, "count of axes with n > 1")
     # exact root location at rational sample points on both sides of the limit (Schur-Cohn reduction on Q)
